@@ -288,8 +288,58 @@ def _repeat_globals_rule(repo, rep):
                   detail=L.conds_text(conds))
 
 
+def repeat_first_context(repo, rep, rule="R05.3"):
+    """whatever else a repeat writes to, the loop variable is assigned in
+    the template's own scope (econtext) on every iteration: the first of the
+    contexts, local or not"""
+    func = repo.func(COMP + "visit_Repeat")
+    alts = []
+    for n in ast.walk(func.node):
+        if isinstance(n, ast.Assign) and src(n.targets[0]) == "contexts":
+            todo = [n.value]
+            while todo:
+                v = todo.pop()
+                if isinstance(v, ast.IfExp):
+                    todo += [v.body, v.orelse]
+                else:
+                    alts.append(v)
+    ok = bool(alts) and all(
+        isinstance(v, ast.Tuple) and v.elts and
+        isinstance(v.elts[0], ast.Constant) and v.elts[0].value == "econtext"
+        and len({e.value for e in v.elts if isinstance(e, ast.Constant)})
+        == len(v.elts) for v in alts)
+    rep.check(ok, rule, func.qualname, "the loop variable is assigned in "
+              "econtext first, and each context once",
+              construct="repeat-first-context", where=L.where(func),
+              detail="; ".join(src(v) for v in alts))
+
+
+def dict_attribute_sets(repo, rep, rule="R05.5"):
+    """the name sets an attribute dictionary is filtered by are built by a
+    bare 'set(...)': they are hoisted out of the render function (Static),
+    where a <?python ?> block that assigns 'set' cannot rebind the name"""
+    func = repo.func(COMP + "visit_DictAttributes")
+    bare = []
+    n = 0
+    for a in ast.walk(func.node):
+        if isinstance(a, ast.Call) and src(a.func) == "template" and a.args \
+                and isinstance(a.args[0], ast.Constant) and \
+                str(a.args[0].value).startswith("set("):
+            n += 1
+            par = getattr(a, "_parent", None)
+            if not (isinstance(par, ast.Call) and src(par.func) == "Static"):
+                bare.append(a)
+    rep.check(n >= 2 and not bare, rule, func.qualname, "the name sets of "
+              "an attribute dictionary are module-level constants of the "
+              "compiled template (%d sets)" % n,
+              construct="dict-attribute-sets-static",
+              where=L.where(func, bare[0].lineno) if bare else L.where(func))
+
+
 def _globals_rule(repo, rep):
     _repeat_globals_rule(repo, rep)
+    repeat_first_context(repo, rep)
+    dict_attribute_sets(repo, rep)
     func = repo.func(COMP + "visit_Assignment")
     res = L.emission(repo, COMP + "visit_Assignment")
     lin = L.Lin(res.emission)
